@@ -112,6 +112,9 @@ func c09Kinds(tys []cty.Type) string {
 
 type c09Run struct {
 	ctx *Ctx
+	// pinned witness values: values() hands each of them to every conversion whose input
+	// type it has (section 0: the witnesses of repaired defects)
+	pinned []cty.Value
 }
 
 func (c *c09Run) fail(site, sig, what string, tys []cty.Type, uns bool, extraIn, extraLit, outcome string) {
@@ -201,9 +204,10 @@ func c09Composed(tys []cty.Type, i int, res cty.Type, uns bool) (mid cty.Type, o
 	return mid, true
 }
 
-// c09Proper: the composition the comments of unify.go describe — the second
-// conversion applied to the OUTPUT of the first.  c09AsWritten: what the closure in
-// unify.go does — the second conversion applied to the ORIGINAL value.
+// c09Two(…, original=false): the composition the comments of unify.go describe and,
+// since /repo df9d7d3, the closure performs — the second conversion applied to the OUTPUT
+// of the first.  original=true: what the closure did before that repair — the second
+// conversion applied to the ORIGINAL value.
 func c09Two(in, mid, res cty.Type, uns bool, v cty.Value, original bool) c08Out {
 	return c08Call(func() (cty.Value, error) {
 		get := convert.GetConversion
@@ -227,7 +231,9 @@ func c09Two(in, mid, res cty.Type, uns bool, v cty.Value, original bool) c08Out 
 
 // c09RootComposed: the outcome `out` of a composed slot is exactly what "second
 // conversion applied to the original value" gives, and the proper composition gives a
-// value of the unified type — the root cause of the recorded finding, nothing else.
+// value of the unified type — the root cause of the defect repaired by /repo df9d7d3,
+// nothing else.  The finding is recorded as `fixed` (it suppresses nothing): a failure
+// that gets this signature again is a regression of that repair.
 func c09RootComposed(in, mid, res cty.Type, uns bool, v cty.Value, out c08Out) bool {
 	pr := c09Two(in, mid, res, uns, v, false)
 	aw := c09Two(in, mid, res, uns, v, true)
@@ -249,6 +255,11 @@ func (c *c09Run) values(t cty.Type, n int) []cty.Value {
 	r := c.ctx.R
 	st := t.WithoutOptionalAttributesDeep()
 	var vs []cty.Value
+	for _, pv := range c.pinned {
+		if pv.Type().Equals(t) {
+			vs = append(vs, pv)
+		}
+	}
 	vs = append(vs, c08Val(r, t, 2, c08VOpts{}))
 	if n >= 2 {
 		vs = append(vs, c08Val(r, t, 3, c08VOpts{unknown: true, null: true, marks: true, dynVal: true}))
@@ -706,6 +717,20 @@ func runC09(ctx *Ctx) {
 			return cty.Object(m)
 		}
 		tup := func(es ...cty.Type) cty.Type { return cty.Tuple(es) }
+		tv := func(es ...cty.Value) cty.Value { return cty.TupleVal(es) }
+		// the witness VALUES of the defect repaired by /repo df9d7d3 (composed closure applied
+		// its second step to the original value; known_findings.json, C09, `fixed`): the
+		// conversions returned for the lists below must now yield the unified type on them
+		// (safe_convs_total, convs_yield_unified, no_panic; Lean: C09.…_witness_fixed)
+		c.pinned = []cty.Value{
+			tv(tv(cty.NumberIntVal(1)), tv(cty.StringVal("a"))), // was: error "element types must all match"
+			tv(tv(cty.True), tv(cty.StringVal("a"))),
+			tv(tv(cty.NumberIntVal(1))), // was: list(list(number)) for list(list(string))
+			tv(tv(cty.True)),
+			cty.EmptyTupleVal, // was: panic "not a collection type"
+			tv(cty.NumberIntVal(1), cty.StringVal("a")),
+			cty.ObjectVal(map[string]cty.Value{"a": cty.NumberIntVal(1)}),
+		}
 		for _, tys := range [][]cty.Type{
 			{cty.Set(cty.String), cty.Set(cty.Bool), cty.List(cty.Number)},
 			{cty.Map(cty.String), obj("a", cty.Number)},
@@ -719,11 +744,13 @@ func runC09(ctx *Ctx) {
 			{tup(cty.String, cty.List(cty.Bool), cty.Number), tup(cty.Number, cty.String, cty.List(cty.Bool)), tup(cty.List(cty.Bool), cty.Number, cty.String), cty.String},
 			{tup(tup(cty.Bool)), tup(tup(cty.String)), cty.List(cty.List(cty.String))},
 			{tup(tup(cty.Bool), tup(cty.String)), cty.List(cty.List(cty.String))},
+			{tup(tup(cty.Number)), tup(tup(cty.String)), cty.List(cty.List(cty.String))},
 		} {
 			for _, p := range c09Perms(tys) {
 				c.list(p, 5)
 			}
 		}
+		c.pinned = nil
 		// a cycle of the preference relation hides the placeholder candidate (C09.sort_cycle_hides_candidate)
 		cyc := []cty.Type{tup(cty.String, cty.List(cty.Bool), cty.Number), tup(cty.Number, cty.String, cty.List(cty.Bool)), tup(cty.List(cty.Bool), cty.Number, cty.String), cty.String, cty.DynamicPseudoType}
 		for k := 0; k < len(cyc); k++ {
